@@ -265,6 +265,52 @@ def corr(pid, tier, seed, wdir, timeout):
     return ok and not mism, info
 
 
+def racerun(tier, wdir):
+    """C11 search: fresh -race processes whose goroutines meet at first use. Returns list of findings."""
+    findings = []
+    env = goenv()
+    env["CGO_ENABLED"] = "1"
+    exe = os.path.join(wdir, "racerun.bin")
+    rc, out, dt = sh(["go", "build", "-race", "-o", exe, "./racerun"], cwd=HARNESS, env=env, timeout=900)
+    info = {"build_s": round(dt, 1), "trials": 0, "races": 0}
+    if rc != 0:
+        info["error"] = "cannot build the -race stress program: " + out[-800:]
+        return findings, info
+    img = os.path.join(REPO, "test-images", "pizza-rgb8-srgb.jpg")
+    combos = [(2, 1), (8, 4), (64, 16)] if tier == "quick" else [(n, p) for n in (2, 8, 64) for p in (1, 4, 16)] * 3
+    digests = set()
+    for n, procs in combos:
+        e = dict(env)
+        e["GOMAXPROCS"] = str(procs)
+        e["GORACE"] = "halt_on_error=0 exitcode=66"
+        rc, out, dt = sh([exe, str(n), img], env=e, timeout=300)
+        info["trials"] += 1
+        for line in out.splitlines():
+            if line.startswith("digest "):
+                digests.add((n, line))
+        if "DATA RACE" in out or rc == 66:
+            info["races"] += 1
+            if len(findings) < 3:
+                m = re.search(r"WARNING: DATA RACE\n(.*?)\n\n", out, flags=re.S)
+                findings.append({"key": "C11/race/" + hashlib.sha1((m.group(1) if m else out)[:400].encode()).hexdigest()[:12],
+                                 "what": "the race detector reports a data race at first use (N=%d goroutines, GOMAXPROCS=%d)" % (n, procs),
+                                 "goroutines": n, "gomaxprocs": procs, "report": out[:3000]})
+        elif rc != 0:
+            findings.append({"key": "C11/crash", "what": "stress program failed (exit %d)" % rc, "report": out[-2000:]})
+    # every call returns its sequential value: same N => same digest in every trial
+    byn = {}
+    for n, d in digests:
+        byn.setdefault(n, set()).add(d)
+    for n, ds in byn.items():
+        if len(ds) > 1:
+            findings.append({"key": "C11/value/%d" % n, "what": "concurrent calls returned different values in different trials", "digests": sorted(ds)})
+    try:
+        os.remove(exe)
+    except OSError:
+        pass
+    return findings, info
+
+
 def load_known():
     p = os.path.join(VERIF, "known_findings.jsonl")
     res = []
@@ -383,6 +429,13 @@ def run_check(pid, tier, seed):
                              ("model and implementation disagree on %d of %d operations" % (cinfo.get("mismatch_count", 0), cinfo.get("lines", 0))),
                              "mismatches": cinfo.get("mismatches", [])[:20], "detail": cinfo.get("harness_out", "")[-1500:]})
 
+    # ---- 4b: property-specific extra exploration (search only, never the claim) -------------------
+    extra_direct = []
+    if P.get("extra") == "racerun" and steps.get("build_harness"):
+        fnd, rinfo = racerun(tier, wdir)
+        steps["racerun"] = rinfo
+        extra_direct = fnd
+
     # ---- 5: search for a concrete failing input ------------------------------------------------
     known = [k for k in load_known() if k.get("property") == pid and k.get("status") == "open"]
     violations = []
@@ -406,7 +459,16 @@ def run_check(pid, tier, seed):
 
     # findings flagged by the harness itself as direct property violations on the real code
     # (lines "DIRECT <json>" in stats.extra.direct)
-    for d in (cinfo.get("stats", {}).get("extra", {}) or {}).get("direct", []) or []:
+    directs = list((cinfo.get("stats", {}).get("extra", {}) or {}).get("direct", []) or []) + extra_direct
+    if directs:
+        # a concrete failing input on the real code explains the broken proof / correspondence:
+        # report the witnesses instead of a witness-less line per broken step
+        violations = [v for v in violations if v.get("search", {}).get("found")]
+    seen_keys = set()
+    for d in directs[:8]:
+        if d.get("key") in seen_keys:
+            continue
+        seen_keys.add(d.get("key"))
         matched = None
         for k in known:
             if k.get("key") == d.get("key"):
@@ -456,6 +518,13 @@ def run_check(pid, tier, seed):
         "wall_s": round(wall, 2),
         "violations": len(violations),
     }
+    rr = steps.get("racerun")
+    if isinstance(rr, dict) and rr.get("trials"):
+        cov = ev["coverage"]
+        cov["evaluations"] = int(cov.get("evaluations", 0)) + int(rr["trials"])
+        cov["distinct_nontrivial"] = int(cov.get("distinct_nontrivial", 0)) + int(rr["trials"])
+        cov["rule"] = "each -race trial is a fresh process with N goroutines released together at first use (distinct (N, GOMAXPROCS) trials); the access summary itself is regenerated and kernel-checked"
+        cov["samples"] = [{"race_trials": rr["trials"], "races": rr.get("races", 0)}] + cov["samples"]
     if discharged < 1:
         # schema: a proof-level file needs discharged >= 1; a run in which nothing was discharged
         # reports its counts under other keys and falls back to the exploration-style keys
